@@ -60,6 +60,7 @@ NEEDED = {
     "S-C13-6": "C14 rule: a cancellation delivered inside a close operation is re-raised at one of the next checkpoints; C13 statement 'libclose' (the server-side client's aclose() as a blocking operation of the generated programs)",
     "S-C18-6": "C18 restart on a fixed address (standalone and async templates), the server's end closing first so that its connections are in TIME_WAIT on the listening address",
     "S-C20-6": "none: the change is in the blocking API's lock_with_timeout (C20 is about asynchronous sends); C12's lock-timeout scenario catches it",
+    "S-C15-5": "none for C15: the change re-opens the defect repaired by c26d018 in the asyncio socket adapter (bytes written into the caller's buffer in the iteration in which the waiting task is cancelled); C10 drives that adapter over real sockets, including the server's request receiver with yielded timeouts, and catches it; C15 drives the server over in-memory transports",
     "S-C04-2": "C04 interrupted send then resume (C20 caught it before)",
 }
 rows = []
